@@ -48,9 +48,10 @@ ASSUMPTIONS = [
     'diamonds and unregistered intermediate classes are outside the '
     'quantifier (not generated); an unregistered root is treated like a '
     'mix-in: its hooks must not run',
-    'documents here contain no aliases: whether an aliased node counts as '
-    'one node or as one per reference for "exactly once" is not stated (C18 '
-    'checks that aliases are transparent for the loaded value)',
+    'one family has an object mapping referenced twice (anchor and alias): '
+    'each reference is taken as a node of its own, seasoned by the whole '
+    'chain once, from the same unseasoned form (C18: aliases are '
+    'transparent); the other documents contain no aliases',
     '_yatiml_recognize may be consulted any number of times; only the class '
     'it is consulted for is judged',
 ]
